@@ -81,7 +81,7 @@ const INTEGRAL_PRIMS: [&str; 12] = [
     "varuint62",
 ];
 
-const ARG_POOL: [&str; 14] = [
+const ARG_POOL: [&str; 19] = [
     "x",
     "Foo",
     "a b",
@@ -96,6 +96,12 @@ const ARG_POOL: [&str; 14] = [
     "",
     "/* x */",
     "tab\there",
+    // backslashes at the edges: the written form ends in `\\"`, starts with `"\\`, is nothing but escapes
+    "C:\\",
+    "\\",
+    "\\\\",
+    "\\\"",
+    "\\leading",
 ];
 
 #[derive(Clone, Debug)]
